@@ -138,6 +138,7 @@ func clusterRun(f []string) string {
 	if err != nil {
 		return "procerr"
 	}
+	defer hx.DropScopes("service." + p.Name() + ".") // runs after the Stop registered below
 	defer func() {
 		done := make(chan struct{})
 		go func() { p.Stop(); close(done) }()
@@ -150,7 +151,7 @@ func clusterRun(f []string) string {
 	refreshes := func() uint64 {
 		// the refresh counters are created by the first refresh: look them up until they exist, then keep the handles
 		if metric == nil {
-			metric = counterHandles("service." + p.Name() + ".")
+			metric = hx.Metrics("service." + p.Name() + ".")
 		}
 		return metric("upstream.slots_refresh.success_total")
 	}
